@@ -86,4 +86,13 @@ an extended input type — printed SDL, `inputFields` — changed from run to ru
 whole body; the order-sensitive `extend-order` cases of the correspondence check the behaviour. -/
 theorem C16_input_extend_ordered : Gen.inputExtendMapOrder = false := by decide
 
+/-- **C16_scan_time_decisions.**  Three things the parser decides while scanning, when it knows only the definitions
+of *earlier* loads, no longer make the outcome depend on the split (D78, D79, D80 repaired; forms read from
+`validateDirUse`, `replaceDirRefs` and the schema arm of `addExtends` on this run): required directive arguments
+are asked for by validation, directive uses are bound by name in the directive table, and the implied schema is
+formed before an `extend schema` is applied.  The fixed table of the correspondence runs each as one document
+and as several loads. -/
+theorem C16_scan_time_decisions :
+    Gen.dirRequiredUnchecked = false ∧ Gen.dirRefTypeFirst = false ∧ Gen.extendSchemaNeedsSchema = false := by decide
+
 end Ggql.Load
